@@ -782,7 +782,7 @@ func genCall(r *common.Rng, f *fspec, maxLen int) *call {
 			}
 		}
 		if f.hasTest {
-			genTest(55, 8)
+			genTest(50, 16) // :test-not is a keyword of the shared parser (repo_fixes/C14-19)
 		}
 		if f.hasCount {
 			switch x := r.Intn(100); {
